@@ -468,7 +468,10 @@ func (c20) Eval(c *Chooser, env *Env) *Outcome {
 				kinds = append(kinds, TFNoNewline)
 			}
 			k := kinds[c.Int("fault.kind", len(kinds))]
-			if k == TFNullElement || k == TFNoNewline {
+			if c.Weighted("fault.flood", 1, 24) {
+				k = TFFlood
+			}
+			if k == TFNullElement || k == TFNoNewline || k == TFFlood {
 				// output shapes the property does not list (a JSON array holding null, a pyflakes line cut
 				// off before its newline): whether they are fatal is not specified; everything else - no
 				// deadlock, the process bound, collection before return - still is
